@@ -23,6 +23,21 @@ METRIC_NAME = {"E": "EUCLIDEAN", "M": "MANHATTAN", "T": "GREAT_CIRCLE"}
 INTERP = os.environ.get("NUMBA_DISABLE_JIT") == "1"
 
 _events = []
+_overlaps = []
+import dask.array as _da
+_orig_overlap = _da.map_overlap
+
+
+def _rec_overlap(func, *args, **kw):
+    a0 = args[0]
+    _overlaps.append({"depth": [int(kw.get("depth")[0]), int(kw.get("depth")[1])],
+                      "boundary_nan": bool(isinstance(kw.get("boundary"), float) and np.isnan(kw.get("boundary"))),
+                      "numblocks": [int(n) for n in a0.numblocks],
+                      "same_chunks": bool(all(getattr(a, "chunks", None) == a0.chunks for a in args))})
+    return _orig_overlap(func, *args, **kw)
+
+
+_da.map_overlap = _rec_overlap
 _orig = P._process_proximity_line
 _enc = [None]
 
@@ -127,6 +142,7 @@ def run_job(j):
         if want_ev:
             P._process_proximity_line = _rec
         _events.clear()
+        _overlaps.clear()
         rp = P.proximity(mk(), **kw)
         lazy_ok = (not j.get("chunks")) or type(rp.data).__module__.startswith("dask")
         p = comp(rp)
@@ -177,6 +193,8 @@ def run_job(j):
                 tr.append(m)
         prox.append(pr); alloc.append(ar); dirs.append(dr); dirT.append(tr)
     case.update({"prox": prox, "alloc": alloc, "dir": dirs, "dirT": dirT, "lazy_ok": bool(lazy_ok),
+                 "overlap": (_overlaps[0] if _overlaps else {"depth": [-1, -1], "boundary_nan": False,
+                                                            "numblocks": [0, 0], "same_chunks": False}),
                  "raw": {"prox": [[None if np.isnan(v) else float(v) for v in row] for row in p]}})
     return case
 
